@@ -216,8 +216,8 @@ Section Dispatch.
   Definition classify (l : bytes) : option line :=
     match l with
     | k :: e :: rest =>
-      (* complete_line.get(2..): byte 2 must be a character boundary *)
-      if (match rest with c :: _ => is_cont c | [] => false end) || is_cont e then None else
+      (* complete_line.get(2..): byte index 2 must be a character boundary (the end of the line, or not a continuation byte) *)
+      if (match rest with c :: _ => is_cont c | [] => false end) then None else
       if Byte.eqb e eq_ then
         if Byte.eqb k "v"%byte then (match rest with [z] => if Byte.eqb z "0"%byte then Some LVersion else Some (LIgnored l) | _ => Some (LIgnored l) end)
         else if Byte.eqb k "s"%byte then Some (LName rest)
